@@ -11,6 +11,7 @@ Three monitors per generated program (and the first and third for every golden p
  (c) one forced extra pass changes neither the code file nor the symbol dump.
 """
 import os
+import re
 
 from .. import asl, corpus
 
@@ -40,6 +41,7 @@ def plan(tier, seed):
     cases = [{'gen': i} for i in range(n)]
     cases += [{'prog': p} for p in corpus.names()]
     cases += [{'tail': i} for i in range(150 if tier == 'quick' else 3000)]
+    cases += [{'edge': i} for i in range(150 if tier == 'quick' else 3000)]
     return cases
 
 
@@ -297,6 +299,55 @@ def gen(rng):
     return cpu, base, '\n'.join(lines) + '\n', stmts, nfwd, uses_padding
 
 
+EDGE_DIST = [100, 110, 116, 118, 119, 120, 121, 122, 123, 124, 125, 126, 127, 128, 129, 130, 131, 132, 136, 200, 254, 255, 256, 257, 300]
+
+
+def gen_edge(rng):
+    """fixed-size short branches whose distance lies around the limit of their displacement field: such a branch is either
+    rejected (jump distance too big) or, if accepted, encodes a displacement that reaches the label"""
+    cpu = rng.choice(['6502', '6809', '6811'])
+    dec, kinds, bop, rop, bases, maxsz, padding, = TARGETS[cpu]
+    near_kinds = sorted(k for k in kinds if k.startswith('near'))
+    lines = ['\tcpu\t%s' % cpu, '\torg\t%d' % rng.choice([0x1000, 0x4000, 0x80])]
+    stmts = []
+    nlab = 0
+
+    def add(text, typ=None, info=None):
+        lines.append(text)
+        if typ:
+            stmts.append((len(lines), typ, info))
+
+    def filler(n):
+        # exact number of bytes, as data or as reservation
+        while n > 0:
+            k = min(n, rng.randrange(1, 40))
+            if rng.random() < 0.5:
+                add('\t%s\t%s' % (bop, ','.join(str(rng.randrange(256)) for _ in range(k))))
+            else:
+                add('\t%s\t%d' % (rop, k))
+            n -= k
+
+    for _ in range(rng.choice([1, 1, 1, 2])):
+        nk = rng.choice(near_kinds)
+        d = rng.choice(EDGE_DIST)
+        lab = 'lb%d' % nlab
+        nlab += 1
+        if rng.random() < 0.5:
+            # backward: label, marker byte, filler, branch
+            add('%s:' % lab, 'label', lab)
+            add('\t%s\t%d' % (bop, 0xC0 + nlab), 'marker', lab)
+            filler(d)
+            add('\t' + kinds[nk] % lab, 'ref', (nk, lab))
+        else:
+            add('\t' + kinds[nk] % lab, 'ref', (nk, lab))
+            filler(d)
+            add('%s:' % lab, 'label', lab)
+            add('\t%s\t%d' % (bop, 0xC0 + nlab), 'marker', lab)
+        filler(rng.randrange(0, 5))
+    add('\t%s\t0' % bop)
+    return cpu, '\n'.join(lines) + '\n', stmts
+
+
 def find_cycle(trace):
     """(j, k) passes with equal symbol-table digest and repass pending, j<k, j>=2; else None"""
     seen = {}
@@ -344,6 +395,14 @@ def run_case(case, ctx):
         tag = 'sticky tail #%d (%s: %s)' % (ctx.idx, cpu, ' / '.join(x.strip().replace('\t', ' ') for x in tailstm))
         stmts = None
         out.sample = {'tail': ctx.idx, 'cpu': cpu, 'source': text.split('\n')}
+    elif 'edge' in case:
+        cpu, text, stmts = gen_edge(ctx.rng)
+        base, nfwd, uses_padding = 0, 1, False
+        src = 'g.asm'
+        ctx.write(src, text)
+        flags = []
+        tag = 'edge #%d (%s)' % (ctx.idx, cpu)
+        out.sample = {'edge': ctx.idx, 'cpu': cpu, 'source_head': text.split('\n')[:14]}
     else:
         cpu, base, text, stmts, nfwd, uses_padding = gen(ctx.rng)
         src = 'g.asm'
@@ -392,6 +451,21 @@ def run_case(case, ctx):
         return
     if (a.rc != 0 or a.p is None) and 'tail' in case:
         out.obs['tail_programs_not_valid'] += 1
+        return
+    if (a.rc != 0 or a.p is None) and 'edge' in case:
+        # the only legitimate complaint is "jump distance too big" (1370) on a branch line
+        reflines = {ln for ln, typ, _ in stmts if typ == 'ref'}
+        errs = [e for e in a.trace if e['k'] == 'D']
+
+        def on_ref_line(e):
+            m_ = re.search(r'\((\d+)\)', str(e.get('pos', '')))
+            return bool(m_) and int(m_.group(1)) in reflines
+        if a.rc == 2 and errs and all(int(e['num']) == 1370 and on_ref_line(e) for e in errs):
+            out.obs['edge_programs_rejected_as_out_of_range'] += 1
+            out.nontrivial = True
+            out.sig = ('edge-rejected', cpu, len(errs))
+        else:
+            out.violate('edge-program-fails-otherwise', '%s: rc=%s %s' % (tag, a.rc, a.run.text()[-400:].replace('\n', ' | ')))
         return
     if a.rc != 0 or a.p is None:
         if stmts is None:
